@@ -86,6 +86,13 @@ def run(ctx):
             eh = rng.choice(["continue", "continue", "raise"])
             dist["raise_mode"] += int(eh == "raise")
             rc = dict(ref_rc, error_handling=eh)
+            if second is None and not path and len(n.get("outputs", [])) == 1 and n["inputs"] and not n.get("emit") and rng.random() < 0.08:
+                # the failing function is an interrupt's handler (interrupts need the asynchronous runner)
+                for nn in gf["nodes"]:
+                    if nn["name"] == n["name"]:
+                        nn["kind"] = "interrupt"
+                rc["runner"] = "async"
+                dist["interrupt_handler"] = dist.get("interrupt_handler", 0) + 1
             if eh == "raise":
                 rc["allow_raise"] = True
             if rng.random() < 0.3:
@@ -147,7 +154,8 @@ def run(ctx):
         return msgs
 
     from harness.props.c16 import missing_error
-    obs_all, res = engine.run_cases(ctx, "C11", cases, extra=extra, want_model=lambda g, rc, obs: not missing_error(obs))
+    obs_all, res = engine.run_cases(ctx, "C11", cases, extra=extra, want_model=lambda g, rc, obs: not missing_error(obs) and not any(
+                                          n["kind"] == "interrupt" and n.get("fn", [None])[0] == "raise" for n in g["nodes"]))
     ctx.coverage.update(
         evaluations=len(cases), coq_checks=res["n"], distinct_nontrivial=len(nontrivial),
         rule="dag / gated / loop / emit programs and DAGs nested to depth 1-3; each of up to three nodes in turn (25% together with a second "
